@@ -13,7 +13,7 @@ from fractions import Fraction as Fr
 from lib.rat import R, F, close, dev
 
 ID = "C05"
-QUICK_N = 700
+QUICK_N = 1500
 THOROUGH_N = 12000
 QUICK_BUDGET_S = 80
 THOROUGH_BUDGET_S = 900
@@ -67,10 +67,10 @@ def gen_bpm(rng):
     r = rng.random()
     if r < 0.6:
         return float(rng.choice(E_BPMS))
-    if r < 0.85:
+    if r < 0.955:
         return float(f"{rng.uniform(40, 400):.{rng.choice([0, 1, 2, 3])}f}")
-    if r < 0.95:
-        return rng.uniform(40, 400)
+    if r < 0.985:
+        return rng.uniform(40, 400)          # more than three decimals: D06
     return 100 / 3
 
 
@@ -349,7 +349,11 @@ def run(case, drv):
     pts = [(c, F(o)) for c, s_, o in case["hits"]] + [(c, F(o)) for c, s_, o, g in case["holds"]] + \
           [(c, F(o) + F(g)) for c, s_, o, g in case["holds"]]
     d33 = any(c == pc and F(o) < pt < F(o) + F(g) for c, s_, o, g in case["holds"] for pc, pt in pts)
-    quantified = facts["on_measure_lines"] and not facts["collision"] and all(f is not None for f in all_facts) \
+    # "tempo points on measure lines": exactly (theorem domain) or up to the rounding of the in-memory doubles
+    sb = sorted((F(o), F(b)) for o, b in case["bpms"])
+    on_lines = all(abs((o2 - o1) / (240000 / b1) - round((o2 - o1) / (240000 / b1))) <= Fr(1, 10 ** 9) and round((o2 - o1) / (240000 / b1)) >= 1
+                   for (o1, b1), (o2, _) in zip(sb[:-1], sb[1:]))
+    quantified = on_lines and not facts["collision"] and all(f is not None for f in all_facts) \
         and all(0 <= c < LAYOUT_COLS[layout] for c, *_ in case["hits"] + case["holds"]) and len(case["bpms"]) < 1295
     kf = None
     if not quantified:
@@ -390,7 +394,7 @@ def run(case, drv):
             want_t = sorted((F(o), F(b)) for o, b in case["bpms"])
             s_tempo = len(got_t) == len(want_t) and all(
                 abs(g[0] - w[0]) <= EPS + abs(w[0]) * EPS and abs(g[1] - w[1]) <= abs(w[1]) * EPS for g, w in zip(got_t, want_t))
-            maxdev = max([float(abs(w[0] - g[0])) for k in want if k in got for w, g in zip(want[k], got[k])] or [0.0]) if s_hits else 0.0
+            maxdev = max([float(abs(w[0] - g[0])) for k in want if k in got for w, g in zip(want[k], got[k]) if w[1] == EPS] or [0.0]) if s_hits else 0.0
             if not s_hits:
                 why.append("hits")
             if not s_holds:
@@ -416,7 +420,7 @@ def run(case, drv):
     for flag, name in ((d31, "d31-pred"), (d06, "d06-pred"), (d32, "d32-pred"), (d33, "d33-pred"), (off_grid, "off-grid"), (bool(case["holds"]), "holds")):
         if flag:
             tags.append(name)
-    in_dom = bool(quantified and not d31 and not d06 and not d32 and not d33)
+    in_dom = bool(quantified and facts["on_measure_lines"] and not d31 and not d06 and not d32 and not d33)
     nontrivial = quantified and (off_grid or bool(case["holds"]) or (len(case["bpms"]) >= 2 and len(case["hits"]) > 0))
     return dict(claim="write", ok=ok, agree=agree, dom=in_dom, kf=kf, tags=tags, nontrivial=bool(nontrivial), maxdev=maxdev,
                 boundary=boundary, detail=detail)
